@@ -35,6 +35,10 @@ class Gateway:
         self.sent = 0  # bytes of the gateway->client stream scheduled so far
         self._last_t = 0.0
         self._pending: list[tuple[float, bytearray]] = []
+        self.limit_bytes: int | None = None
+        self.limit_kind = "eof"
+        self.fed_bytes = 0
+        self.cut_time: float | None = None
         self.fed: list[tuple[float, bytes]] = []
         self.frames_out: list[tuple[float, bytes, str]] = []  # (arrival time of last byte, frame bytes, label)
         self.cut_state: str | None = None
@@ -101,6 +105,21 @@ class Gateway:
     def _feed(self, data: bytes) -> None:
         if self.cut_state is not None:
             return
+        if self.limit_bytes is not None:
+            remaining = self.limit_bytes - self.fed_bytes
+            if len(data) >= remaining:
+                # the connection is cut after exactly `limit_bytes` bytes of the gateway->client stream
+                if remaining > 0:
+                    self.fed.append((self.loop.time(), data[:remaining]))
+                    self.fed_bytes += remaining
+                    self.reader.feed_data(data[:remaining])
+                # like a real socket: the loss is reported in a later loop iteration than the last data
+                # (StreamReader.set_exception in the same iteration as feed_data would be lost on a reader that is just waking up)
+                self.limit_bytes = None
+                self.cut_state = "cutting"
+                self.loop.call_soon(self._do_cut, self.limit_kind)
+                return
+        self.fed_bytes += len(data)
         self.fed.append((self.loop.time(), data))
         self.reader.feed_data(data)
 
@@ -110,11 +129,16 @@ class Gateway:
         if self.cut_state is not None:
             return
         self.cut_state = kind
+        self.cut_time = self.loop.time()
         if kind == "eof":
             self.reader.feed_eof()
         elif kind == "reset":
             self.reader.set_exception(ConnectionResetError("Connection reset by peer"))
             self.writer.fail = ConnectionResetError("Connection reset by peer")
+
+    def _do_cut(self, kind: str) -> None:
+        self.cut_state = None
+        self.cut(kind)
 
     def cut_at(self, delay: float, kind: str) -> None:
         t = max(self.loop.time() + delay, self._last_t + EPS)
@@ -139,10 +163,14 @@ class GatewayHub:
         self.connections.append(g)
         return g.reader, g.writer
 
+    async def open_unix_connection(self, path: Any = None, **kw: Any) -> tuple[Any, Any]:
+        return await self.open_connection(path, None)
+
     def __enter__(self) -> "GatewayHub":
-        self._orig = asyncio.open_connection
+        self._orig = (asyncio.open_connection, asyncio.open_unix_connection)
         asyncio.open_connection = self.open_connection  # type: ignore[assignment]
+        asyncio.open_unix_connection = self.open_unix_connection  # type: ignore[assignment]
         return self
 
     def __exit__(self, *a: Any) -> None:
-        asyncio.open_connection = self._orig
+        asyncio.open_connection, asyncio.open_unix_connection = self._orig  # type: ignore[assignment]
